@@ -1,6 +1,8 @@
 """LV rules: barrier / shutdown / pending-level counting (property C35, shutdown part of C09)."""
 import ast
 
+from .linform import Lin
+
 from .core import AnalysisError, iter_nodes, norm
 from . import astq
 from .astq import parents, ancestors, calls_named, enclosing_ifs, enclosing_loops, const_int, attr_tail
@@ -229,7 +231,24 @@ def rule_LV3(ctx, rep):
     conns = calls_named(st.node, 'create_connection')
     pms = parents(st.node)
     sl = [l for l in enclosing_loops(conns[0], pms, stop=st.node) if isinstance(l, ast.For)] if conns else []
-    if lp and sl and norm(lp[-1].iter) == norm(sl[-1].iter):
+    def party_range(f_, loop, pm_):
+        """(lo, hi) as linear forms over P / M: the indices of the parties a loop visits -- `for peer in self.parties[a:b]`, or
+        `for i in range(a, b)` with self.parties[i] in its body"""
+        from . import routes
+        it = loop.iter
+        if isinstance(it, ast.Subscript) and isinstance(it.slice, ast.Slice) and norm(it.value).endswith('.parties') and it.slice.step is None:
+            lo = routes.lin(f_, it.slice.lower, loop, pm_) if it.slice.lower is not None else Lin(0)
+            hi = routes.lin(f_, it.slice.upper, loop, pm_) if it.slice.upper is not None else Lin.sym('M')
+            return lo, hi
+        if isinstance(it, ast.Call) and isinstance(it.func, ast.Name) and it.func.id == 'range' and len(it.args) in (1, 2) and isinstance(loop.target, ast.Name):
+            if any(isinstance(x, ast.Subscript) and norm(x.value).endswith('.parties') and norm(x.slice) == loop.target.id for b_ in loop.body for x in ast.walk(b_)):
+                lo = routes.lin(f_, it.args[0], loop, pm_) if len(it.args) == 2 else Lin(0)
+                hi = routes.lin(f_, it.args[-1], loop, pm_)
+                return lo, hi
+        return None
+    pr_c = party_range(fn, lp[-1], pm) if lp else None
+    pr_o = party_range(st, sl[-1], pms) if sl else None
+    if lp and sl and ((pr_c is not None and pr_c == pr_o) or norm(lp[-1].iter) == norm(sl[-1].iter)):
         rep.ok('LV3', fn, lp[-1].iter, 'every connection is closed by the party that opened it (same enumeration as start())')
     else:
         rep.bad('LV3', fn, closes[0], 'the set of connections closed in shutdown differs from the set opened in start(): some connection is never closed '
